@@ -62,7 +62,10 @@ def valid_candidates(t):
     if t == "datetime":
         return st.one_of(gen.datetimes(), st.sampled_from(["2023-01-10T16:12:01+00:00", "2023-01-10T16:12:01",
                                                             "2022-12-01T13:00:23.499460Z", "2023-09-01 13:37:12.345678+09:00",
-                                                            0, 1, 1700000000, 1700000000.5, -1]))
+                                                            0, 1, 1700000000, 1700000000.5, -1]),
+                         # values that already ARE instances of the field type, made by its own (inherited) constructors
+                         # and methods from a possibly naive wall time: every way into a record still gives an aware value
+                         st.tuples(st.sampled_from(FTDT_WAYS), gen.datetimes()).map(lambda p: M("ftdt", p)))
     if t == "digest":
         return st.one_of(gen.digests(), gen.digests().map(lambda d: {"md5": d[0], "sha1": d[1], "sha256": d[2]}),
                          gen.digests().map(list))
@@ -92,6 +95,25 @@ def valid_candidates(t):
 # addresses: the ipaddress module refuses them) - an address parser must not confuse the two, whatever it saw before
 IP_INTS = [0, 1, 3232235777, 2**32 - 1, 2**32, 2**53]
 NOT_IP_NUMBERS = [float(n) for n in IP_INTS] + [M("num", (k, n)) for k in ("decimal", "fraction", "complex") for n in IP_INTS[:4]]
+
+
+FTDT_WAYS = ["replace-tzinfo", "explicit-tzinfo-arg", "combine", "fromisoformat", "strptime", "utcfromtimestamp"]
+
+
+def build_ftdt(way, d):
+    """An instance of the datetime field type obtained through the class's own API with d's wall time and tzinfo."""
+    cls = ftype("datetime")
+    if way == "replace-tzinfo":
+        return cls(d if d.tzinfo is not None else d.replace(tzinfo=UTC)).replace(tzinfo=d.tzinfo, fold=d.fold)
+    if way == "explicit-tzinfo-arg":
+        return cls(d.year, d.month, d.day, d.hour, d.minute, d.second, d.microsecond, d.tzinfo, fold=d.fold)
+    if way == "combine":
+        return cls.combine(d.date(), d.timetz())
+    if way == "fromisoformat":
+        return cls.fromisoformat(_d.datetime.isoformat(d))
+    if way == "strptime":
+        return cls.strptime(d.replace(tzinfo=None).strftime("%Y %m %d %H %M %S %f").zfill(26), "%Y %m %d %H %M %S %f")
+    return cls.utcfromtimestamp(max(0, min(2**33, int((d.replace(tzinfo=None) - _d.datetime(1970, 1, 1)).total_seconds()))))
 
 
 def reject_candidates(t):
@@ -283,6 +305,8 @@ def build_candidate(v):
             import fractions
 
             return {"decimal": decimal.Decimal, "fraction": fractions.Fraction, "complex": complex}[v.p[0]](v.p[1])
+        if v.kind == "ftdt":
+            return build_ftdt(*v.p)
         if v.kind == "ftinst":
             return ftype(v.p[0])(build_candidate(v.p[1]))
         if v.kind == "typedlist":
